@@ -190,7 +190,8 @@ def check(case, rec):
 def index_cases(draw, tier):
     from ..machine import dense_strategy
 
-    pal = draw(st.sampled_from([[0, 1, 2, 3], [0, 1, 2, 3, 4, 5], [1, 0, 2], [0, 1, 255, 256], [2, 0, 70000, 1]]))
+    pal = draw(st.sampled_from([[0, 1, 2, 3], [0, 1, 2, 3, 4, 5], [0, 1, 2, 3, 4, 5, 6, 7], [1, 0, 2],
+                                [0, 1, 255, 256], [2, 0, 70000, 1]]))
     tail = draw(st.sampled_from([(), (1,), (2,), (3,), (4,), (2, 2), (3, 2)]))
     n = draw(st.integers(0, 10))
     shape = (n,) + tuple(tail)
@@ -282,9 +283,16 @@ def check_index_methods(case, rec):
                 fm.setdefault(v, v)
             a_vals, a_counts, a_fm = arg(vals), arg(counts), arg(fm)
             if vals.size:
+                kw = {"counts": counts}
+                if f0:
+                    kw["mapping"] = fm
+                if f1:
+                    kw["common"] = case["common"]
                 with libcall("from_array"):
-                    iindex.from_array(vals, counts=counts, common=case["common"], mapping=fm)
-                unchanged("from_array(values, counts, mapping)", values=a_vals, counts=a_counts, mapping=a_fm)
+                    iindex.from_array(vals, **kw)
+                    iindex.from_array(vals, **kw)
+                unchanged("from_array(values, counts%s%s)" % (", mapping" if f0 else "", ", common" if f1 else ""),
+                          values=a_vals, counts=a_counts, mapping=a_fm)
         if ix.ndim == 2 and ix.shape[1] >= 1:
             prec = list(case["precedence"])
             cm = {k: v for k, v in case["mapping"]}
